@@ -656,6 +656,7 @@ struct WorldT : PolicyOps {
     static inline tid meth_vp[NSLOTS][8];
     static inline bool meth_live[NSLOTS];
     static inline int handler_mode = HM_DEFAULT;
+    static inline int self_uid = -1;
     static inline y2::error_handler_type shipped_error;
     static inline y2::method_call_error_handler shipped_call_error = nullptr;
 
@@ -714,6 +715,8 @@ struct WorldT : PolicyOps {
         caps.trace = kTrace;
         caps.small_ids = !kHash && !kMap;
         caps.static_offsets = Slots::vt[0]->st_slots() != nullptr;
+        uid = (int)all_policies().size();
+        self_uid = uid;
         all_policies().push_back(this);
     }
 
@@ -959,6 +962,7 @@ struct WorldT : PolicyOps {
     static void on_error(const y2::error_type& ev) {
         ErrInfo info;
         fill_err(info, ev);
+        info.handler_uid = self_uid;
         info.handler_calls = ++tls().handler_calls;
         if (g.probe_fd >= 0)
             probe_write(
@@ -979,6 +983,7 @@ struct WorldT : PolicyOps {
         for (std::size_t i = 0; i < arity && i < 16; ++i)
             info.types[i] = types[i];
         info.via_call_error = 1;
+        info.handler_uid = self_uid;
         info.handler_calls = ++tls().handler_calls;
         if (g.probe_fd >= 0)
             probe_write(
